@@ -163,6 +163,28 @@ fn same_fx(a: &FXRates, b: &FXRates) -> Result<(), String> {
             }
         }
     }
+    // ... and the loaded market goes on like the original: the same update applied to both gives the same rates
+    {
+        let (mut x, mut y) = (a.clone(), b.clone());
+        let q0 = hooks::fxrates_fx_rates(a)[0].clone();
+        let (l, r, num, st) = hooks::fxrate_parts(&q0);
+        let newq = FXRate::try_new(&l, &r, Number::F64(f64::from(&num) * 1.0625), st).map_err(|_| "oracle: quote".to_string())?;
+        match (x.update(vec![newq.clone()]).is_ok(), y.update(vec![newq]).is_ok()) {
+            (true, true) => {
+                for l in cs.iter() {
+                    for r in cs.iter() {
+                        let (cl, cr) = (Ccy::try_new(l).unwrap(), Ccy::try_new(r).unwrap());
+                        match (x.rate(&cl, &cr), y.rate(&cl, &cr)) {
+                            (Some(p), Some(q)) => same_number(&p, &q).map_err(|e| format!("query/rate {}{} after an update of both: {}", l, r, e))?,
+                            _ => return Err(format!("query/rate {}{} missing after an update", l, r)),
+                        }
+                    }
+                }
+            }
+            (false, false) => {}
+            (p, q) => return Err(format!("query/update accepted by the original: {}, by the loaded market: {}", p, q)),
+        }
+    }
     Ok(())
 }
 
@@ -201,6 +223,22 @@ fn same_curve(a: &VerifCurve, b: &VerifCurve, lookups: bool) -> Result<(), Strin
                 (Ok(x), Ok(y)) => same_number(&x, &y).map_err(|e| format!("query/index_value {}: {}", d, e))?,
                 (Err(_), Err(_)) => {}
                 _ => return Err("query/index_value availability differs".into()),
+            }
+        }
+        // ... and the loaded curve goes on like the original: the same order switches give the same nodes and look-ups
+        let (mut x, mut y) = (a.clone(), b.clone());
+        for o in [ADOrder::Two, ADOrder::Zero, ADOrder::One] {
+            let (rx, ry) = (x.set_ad_order(o).is_ok(), y.set_ad_order(o).is_ok());
+            if rx != ry {
+                return Err(format!("query/set_ad_order({:?}) accepted by the original: {}, by the loaded curve: {}", o, rx, ry));
+            }
+            let (nx, ny) = (x.nodes(), y.nodes());
+            for ((_, va), (kb, vb)) in nx.iter().zip(ny.iter()) {
+                same_number(va, vb).map_err(|e| format!("query/node {} after switching both to {:?}: {}", kb, o, e))?;
+            }
+            for q in [xs[0] + 3 * crate::curvemodel::DAY, xs[xs.len() - 1] - crate::curvemodel::DAY] {
+                let d = ts_to_ndt(q);
+                same_number(&x.get(&d), &y.get(&d)).map_err(|e| format!("query/look-up {} after switching both to {:?}: {}", d, o, e))?;
             }
         }
     }
@@ -372,8 +410,44 @@ fn d2bits_named(x: &Dual2) -> Vec<u64> {
     }
     v
 }
+/// a loaded spline goes on like the original: same values, and solved again on the same data it has the same coefficients
+fn spline_goes_on(a: &PPSpline<f64>, b: &PPSpline<f64>) -> Result<(), String> {
+    let (k, n, t) = (*a.k(), *a.n(), a.t().clone());
+    let (lo, hi) = (t[0], t[t.len() - 1]);
+    if a.c().is_some() {
+        for j in 0..=8 {
+            let x = lo + (hi - lo) * j as f64 / 8.0;
+            for m in 0..k.min(3) {
+                match (a.ppdnev_single(&x, m), b.ppdnev_single(&x, m)) {
+                    (Ok(p), Ok(q)) if bits(p) == bits(q) || (p.is_nan() && q.is_nan()) => {}
+                    (Err(_), Err(_)) => {}
+                    _ => return Err(format!("query/value at {} (derivative {}) differs", x, m)),
+                }
+            }
+        }
+    }
+    if n >= 2 {
+        let tau: Vec<f64> = (0..n).map(|j| lo + (hi - lo) * j as f64 / (n - 1) as f64).collect();
+        let y: Vec<f64> = (0..n).map(|j| 1.0 / (2.0 + j as f64)).collect();
+        let (mut x, mut z) = (a.clone(), b.clone());
+        match (x.csolve(&tau, &y, 0, 0, false).is_ok(), z.csolve(&tau, &y, 0, 0, false).is_ok()) {
+            (true, true) => {
+                let (cx, cz) = (x.c().as_ref().unwrap(), z.c().as_ref().unwrap());
+                if cx.len() != cz.len() || cx.iter().zip(cz.iter()).any(|(p, q)| bits(*p) != bits(*q) && !(p.is_nan() && q.is_nan())) {
+                    return Err("query/coefficients differ after solving both again".into());
+                }
+            }
+            (false, false) => {}
+            (p, q) => return Err(format!("query/solve accepted by the original: {}, by the loaded spline: {}", p, q)),
+        }
+    }
+    Ok(())
+}
+
 fn all3_spline_f64(rep: &mut Rep, s: &PPSpline<f64>) {
     let w = hooks::ppspline_f64_wrap(s.clone());
+    rep.judge("json", "PPSplineF64", json_rt(&w).and_then(|(y, _)| spline_goes_on(s, hooks::ppspline_f64_inner(&y))));
+    rep.judge("bincode", "PPSplineF64", bin_rt(&w).and_then(|y| spline_goes_on(s, hooks::ppspline_f64_inner(&y))));
     rep.judge("json", "PPSplineF64", json_rt(&w).and_then(|(y, _)| same_spline(s, hooks::ppspline_f64_inner(&y), &fbits)));
     rep.judge("bincode", "PPSplineF64", bin_rt(&w).and_then(|y| same_spline(s, hooks::ppspline_f64_inner(&y), &fbits)));
     rep.judge(
@@ -872,7 +946,7 @@ pub fn cases(tier: Tier) -> Vec<Case> {
             out.push(Case::CalStruct { mask, hols });
         }
     }
-    for size in [5usize, 9, 16, 17, 33, 64, 65, 101, 130] {
+    for size in [5usize, 9, 16, 17, 33, 64, 65, 101, 130, 257] {
         out.push(Case::LargeStruct { size });
     }
     for id in 0..192 {
@@ -951,7 +1025,7 @@ pub fn run(ctx: &Ctx, replay_file: Option<String>) -> ! {
          1970-2200 behaviour compared); curves: 6 interpolators x 3 orders x 3 calendar kinds x 11 conventions x 5 \
          modifiers x index base on/off, and curves with a history of order switches; FX markets of 2-4 currencies x \
          float/Dual/Dual2 quotes x settlement x three base choices x six histories (fresh, order switch, update, \
-         update between order switches, refused update with a known pair listed first, refused update for its settlement date followed by an order switch); splines of the three types with and without coefficients; typed CurveDF; large objects on a size menu (5 .. 130): numbers with that many names, curves with that many nodes at orders 0-2, \
+         update between order switches, refused update with a known pair listed first, refused update for its settlement date followed by an order switch); splines of the three types with and without coefficients; typed CurveDF; every loaded market, curve and float spline is also taken ONE STEP FURTHER together with its original (the same quote update, the same three order switches with look-ups, the same re-solve) and must stay identical; large objects on a size menu (5 .. 257): numbers with that many names, curves with that many nodes at orders 0-2, \
          cubic splines with that many coefficients (float and Dual), FX chains of up to 14 currencies. \
          Oracle: the type's own ==, bitwise identity of EVERY float field, identical names/order/kind, and an identical \
          answer to a query battery (rates of all pairs at all three orders, curve look-ups and index values on the C11 \
